@@ -140,7 +140,7 @@ def run(ctx):
     witness = {"schema.exclusive_bound_numeric": "params", "v3.trace_route_dropped": "verbs", "v3.nosecurity_inherits_api_security": "sec",
                "v3.fileserver_documents_api_security": "files", "v3.api_security_scheme_undefined": "sec", "v3.fileserver_wildcard_kept": "files",
                "v3.fileserver_param_without_schema": "files", "v3.allow_empty_value_not_query": "params", "yaml.leading_newline_dropped": "sec",
-               "decode.required_cookie_drops_param_errors": "params"}
+               "decode.required_cookie_drops_param_errors": "params", "schema.required_with_default_not_required": "params"}
     import concurrent.futures as cf
     with cf.ThreadPoolExecutor(max_workers=6) as ex:
         gens = [ex.submit(oc.enumerate_designs, ctx, fam, 1, 1, None, None, 3) for fam in oc.FAMILIES]
